@@ -71,7 +71,7 @@ Lemma scan_phase_race_free : forall n passes fails c tr,
 Proof. apply c20_race_free. vm_compute. reflexivity. Qed.
 Lemma close_phase_race_free : forall n fails c tr,
   reach (phase_prog fp_close n 1 fails) c tr -> ~ race tr.
-Proof. apply c20_race_free. vm_compute. reflexivity. Qed.
+Proof. intros n fails. apply (c20_race_free fp_close). vm_compute. reflexivity. Qed.
 """
 
 
